@@ -105,3 +105,26 @@ package proto
 //@   ensures uvAt(arrayof(buf.Buf), p, u64(b.Columns)) {Columns}
 //@   ensures uvAt(arrayof(buf.Buf), p + uvsize(u64(b.Columns)), u64(b.Rows)) {Rows}
 //@   ensures version >= 51903 ==> uvAt(arrayof(buf.Buf), offset(buf.Buf) + old(len(buf.Buf)), 1) && uvAt(arrayof(buf.Buf), offset(buf.Buf) + old(len(buf.Buf)) + 7, 0) {info-present-from-51903}
+
+// ---------------------------------------------------------------------------
+// The Query packet as a whole.  Settings and parameters are slices of structs holding strings, so
+// the byte position of what follows them is not expressible in this verifier; what is proved is
+// the head of the packet (code, query id) and that the encoder only ever appends.
+
+//@ contract (q Query) EncodeAware(b, version) props(C02,C17)
+//@   requires b != nil
+//@   modifies b.Buf
+//@   let base = offset(b.Buf) + old(len(b.Buf))
+//@   ensures appendsOnly(b) {append-only}
+//@   ensures len(b.Buf) > old(len(b.Buf)) && arrayof(b.Buf)[base] == 1 {query-code-first}
+//@   ensures uvAt(arrayof(b.Buf), base + 1, len(q.ID)) {query-id-second}
+//@ loop 0 (rangeindex)
+//@   modifies b.Buf
+//@   invariant -1 <= rangeindex && rangeindex < len(q.Settings)
+//@   invariant len(b.Buf) > old(len(b.Buf)) && forall k in 0..old(len(b.Buf)) :: b.Buf[k] == old(b.Buf[k])
+//@   invariant arrayof(b.Buf)[offset(b.Buf) + old(len(b.Buf))] == 1 && uvAt(arrayof(b.Buf), offset(b.Buf) + old(len(b.Buf)) + 1, len(q.ID)) && old(len(b.Buf)) + 1 + uvsize(len(q.ID)) <= len(b.Buf)
+//@ loop 1 (rangeindex)
+//@   modifies b.Buf
+//@   invariant -1 <= rangeindex && rangeindex < len(q.Parameters)
+//@   invariant len(b.Buf) > old(len(b.Buf)) && forall k in 0..old(len(b.Buf)) :: b.Buf[k] == old(b.Buf[k])
+//@   invariant arrayof(b.Buf)[offset(b.Buf) + old(len(b.Buf))] == 1 && uvAt(arrayof(b.Buf), offset(b.Buf) + old(len(b.Buf)) + 1, len(q.ID)) && old(len(b.Buf)) + 1 + uvsize(len(q.ID)) <= len(b.Buf)
